@@ -175,6 +175,13 @@ func (r *rpf) stmt(s ast.Stmt) *rpfReturn {
 		return r.block(x.List)
 	case *ast.ReturnStmt:
 		var out []*Val
+		if len(x.Results) == 1 {
+			if call, ok := x.Results[0].(*ast.CallExpr); ok {
+				if _, isTuple := info.TypeOf(call).(*types.Tuple); isTuple {
+					return &rpfReturn{r.callMulti(call)}
+				}
+			}
+		}
 		for _, e := range x.Results {
 			out = append(out, r.expr(e))
 		}
